@@ -645,9 +645,9 @@ func runMachine(t *rapid.T, concurrent bool) {
 			hist = append(hist, fmt.Sprintf("(the Mux has now served %d requests)", to))
 			ev.Label("history:mux_aged_to_a_counter_boundary")
 		},
-		"request":           func(t *rapid.T) { doRequest(t, false) },
-		"request2":          func(t *rapid.T) { doRequest(t, false) },
-		"requestPanics":     func(t *rapid.T) { doRequest(t, true) },
+		"request":       func(t *rapid.T) { doRequest(t, false) },
+		"request2":      func(t *rapid.T) { doRequest(t, false) },
+		"requestPanics": func(t *rapid.T) { doRequest(t, true) },
 	}
 	if concurrent {
 		actions["burst"] = func(t *rapid.T) {
